@@ -134,15 +134,15 @@ Fixpoint spec_merge (pol : N) (a b : otree) {struct b} : otree :=
           match mb with
           | [] => da
           | _ =>
-            if pol_replace pol then mb
-            else (fix go (acc : list (string * otree)) (l : list (string * otree)) {struct l} :=
-                    match l with
-                    | [] => acc
-                    | (k, vb) :: r =>
-                      go (dict_set k (match dict_get k acc with
-                                      | Some va => spec_merge pol va vb
-                                      | None => vb end) acc) r
-                    end) da mb
+            (* under ReplaceValues B's dictionary alone (the fold starts from the empty one) *)
+            (fix go (acc : list (string * otree)) (l : list (string * otree)) {struct l} :=
+               match l with
+               | [] => acc
+               | (k, vb) :: r =>
+                 go (dict_set k (match dict_get k acc with
+                                 | Some va => spec_merge pol va vb
+                                 | None => vb end) acc) r
+               end) (if pol_replace pol then [] else da) mb
           end in
       recombine d' la
     end
@@ -171,7 +171,7 @@ Fixpoint spec_merge (pol : N) (a b : otree) {struct b} : otree :=
     end
   | ONil =>
     match parts a with
-    | Some (da, la) => recombine da la       (* a nil in B leaves a container of A in place *)
+    | Some _ => a                            (* a nil in B leaves a container of A in place *)
     | None => ONil
     end
   | _ => b
@@ -209,15 +209,14 @@ Fixpoint spec_merge_at (polf : list field -> N) (pos : list field) (a b : otree)
           match mb with
           | [] => da
           | _ =>
-            if pol_replace pol then mb
-            else (fix go (acc : list (string * otree)) (l : list (string * otree)) {struct l} :=
-                    match l with
-                    | [] => acc
-                    | (k, vb) :: r =>
-                      go (dict_set k (match dict_get k acc with
-                                      | Some va => spec_merge_at polf (pos ++ [FName k]) va vb
-                                      | None => vb end) acc) r
-                    end) da mb
+            (fix go (acc : list (string * otree)) (l : list (string * otree)) {struct l} :=
+               match l with
+               | [] => acc
+               | (k, vb) :: r =>
+                 go (dict_set k (match dict_get k acc with
+                                 | Some va => spec_merge_at polf (pos ++ [FName k]) va vb
+                                 | None => vb end) acc) r
+               end) (if pol_replace pol then [] else da) mb
           end in
       recombine d' la
     end
@@ -246,7 +245,7 @@ Fixpoint spec_merge_at (polf : list field -> N) (pos : list field) (a b : otree)
     end
   | ONil =>
     match parts a with
-    | Some (da, la) => recombine da la
+    | Some _ => a
     | None => ONil
     end
   | _ => b
